@@ -136,13 +136,23 @@ func NewWSTransport(ctx context.Context, opts WSTransportOptions) *WSTransport {
 // existing connection when one is available for the same endpoint, subprotocol,
 // headers, and init payload, dialing a new one otherwise.
 func (t *WSTransport) Subscribe(ctx context.Context, req *common.Request, opts common.Options, handler common.Handler) (func(), error) {
-	conn, err := t.getOrDial(ctx, opts)
-	if err != nil {
-		return nil, err
-	}
+	// A pooled connection can be closed (last subscription gone, idle timeout) between the
+	// lookup and the registration of this subscription. That is not the caller's failure:
+	// look up / dial again instead of returning ErrConnectionClosed.
+	const maxAttempts = 3
+	for attempt := 1; ; attempt++ {
+		conn, err := t.getOrDial(ctx, opts)
+		if err != nil {
+			return nil, err
+		}
 
-	id := xid.New().String()
-	return conn.subscribe(ctx, id, req, handler)
+		id := xid.New().String()
+		cancel, err := conn.subscribe(ctx, id, req, handler)
+		if err != nil && attempt < maxAttempts && errors.Is(err, common.ErrConnectionClosed) && ctx.Err() == nil {
+			continue
+		}
+		return cancel, err
+	}
 }
 
 // pingLoop sends periodic pings to all active connections and shuts down
@@ -306,11 +316,12 @@ func (t *WSTransport) dial(ctx context.Context, key uint64, opts common.Options)
 		abstractlogger.String("negotiated_subprotocol", wsConn.Subprotocol()),
 	)
 
-	conn := newWSConnection(wsConn, proto, wsConnectionOptions{
+	var conn *wsConnection
+	conn = newWSConnection(wsConn, proto, wsConnectionOptions{
 		logger:       t.opts.Logger,
 		writeTimeout: t.opts.WriteTimeout,
 		idleTimeout:  t.opts.IdleTimeout,
-		onEmpty:      func() { t.removeConn(key) },
+		onEmpty:      func() { t.removeConn(key, conn) },
 	})
 
 	go conn.readLoop()
@@ -341,10 +352,14 @@ func (t *WSTransport) negotiateSubprotocol(requested common.WSSubprotocol, accep
 	}
 }
 
-func (t *WSTransport) removeConn(key uint64) {
+// removeConn forgets conn. A closed connection may already have been replaced
+// under the same key by a newer one, which must stay registered.
+func (t *WSTransport) removeConn(key uint64, conn *wsConnection) {
 	t.mu.Lock()
 	defer t.mu.Unlock()
-	delete(t.conns, key)
+	if t.conns[key] == conn {
+		delete(t.conns, key)
+	}
 }
 
 // connKey computes a hash key for connection pooling.
